@@ -33,9 +33,9 @@ pub const BIG_CASES: &[&str] = &[
     "boxed_into_iter_roundtrip_u32_4MiB",
     "box_arr_repeat_expr_u64_8MiB",
     "box_arr_repeat_u8x16_4MiB",
-    "default_boxed_16_x_32KiB_elements",
-    "boxed_generate_16_x_32KiB_elements",
-    "boxed_from_iter_16_x_32KiB_elements",
+    "default_boxed_16_x_16KiB_elements",
+    "boxed_generate_16_x_16KiB_elements",
+    "boxed_from_iter_16_x_16KiB_elements",
 ];
 /// not a check: demonstrates that the small stack really cannot hold the array
 pub const BIG_PROBE: &str = "probe_stack_default_u32_4MiB";
@@ -144,12 +144,12 @@ fn big_box_arr_repeat_u8x16() -> bool {
     let b = box_arr![[3u8; 16]; BigM];
     b.len() == 1 << 18 && b.iter().all(|x| *x == [3u8; 16])
 }
-// few, large elements: the array (512 KiB) is twice the stack, each element (32 KiB) fits on it
-struct Blob([u8; 32768]);
+// few, large elements: the array (256 KiB) is as large as the whole stack: only code that needs as much stack as the array itself dies, each element (16 KiB) is a sixteenth of it
+struct Blob([u8; 16384]);
 impl Default for Blob {
     #[inline(always)]
     fn default() -> Blob {
-        Blob([0; 32768])
+        Blob([0; 16384])
     }
 }
 #[inline(never)]
@@ -161,14 +161,14 @@ fn big_default_boxed_big_elements() -> bool {
 #[inline(never)]
 fn big_boxed_generate_big_elements() -> bool {
     use generic_array::typenum::U16;
-    let b = Box::<GenericArray<[u8; 32768], U16>>::generate(|i| [i as u8; 32768]);
-    b.iter().enumerate().all(|(i, x)| x[0] == i as u8 && x[32767] == i as u8)
+    let b = Box::<GenericArray<[u8; 16384], U16>>::generate(|i| [i as u8; 16384]);
+    b.iter().enumerate().all(|(i, x)| x[0] == i as u8 && x[16383] == i as u8)
 }
 #[inline(never)]
 fn big_boxed_from_iter_big_elements() -> bool {
     use generic_array::typenum::U16;
-    let b: Box<GenericArray<[u8; 32768], U16>> = (0..16u8).map(|i| [i; 32768]).collect();
-    b.iter().enumerate().all(|(i, x)| x[0] == i as u8 && x[32767] == i as u8)
+    let b: Box<GenericArray<[u8; 16384], U16>> = (0..16u8).map(|i| [i; 16384]).collect();
+    b.iter().enumerate().all(|(i, x)| x[0] == i as u8 && x[16383] == i as u8)
 }
 #[inline(never)]
 fn big_probe_stack_default_u32() -> bool {
@@ -195,9 +195,9 @@ pub fn bigstack_child(case: &str) -> i32 {
         "boxed_into_iter_roundtrip_u32_4MiB" => big_boxed_into_iter_roundtrip,
         "box_arr_repeat_expr_u64_8MiB" => big_box_arr_repeat_expr,
         "box_arr_repeat_u8x16_4MiB" => big_box_arr_repeat_u8x16,
-        "default_boxed_16_x_32KiB_elements" => big_default_boxed_big_elements,
-        "boxed_generate_16_x_32KiB_elements" => big_boxed_generate_big_elements,
-        "boxed_from_iter_16_x_32KiB_elements" => big_boxed_from_iter_big_elements,
+        "default_boxed_16_x_16KiB_elements" => big_default_boxed_big_elements,
+        "boxed_generate_16_x_16KiB_elements" => big_boxed_generate_big_elements,
+        "boxed_from_iter_16_x_16KiB_elements" => big_boxed_from_iter_big_elements,
         "probe_stack_default_u32_4MiB" => big_probe_stack_default_u32,
         _ => return 2,
     };
